@@ -290,20 +290,25 @@ Print Assumptions C13_set_model_rebuilds.
    clone, a look-alike with the same identifiers, a different model, the first again), id edits on any model, the
    stored model being destroyed, assign*, clearAllIds, look-ups - with identifiers free of '=':
    the list a look-up consults is the list of the model the annotator holds NOW and its items are objects of THAT
-   model ([a_owner] = [a_model]); so the look-up theorems describe its answers with st := the current structure. *)
-Theorem C13_lookups_current_for_all_histories_multi : forall c sts h idss,
+   model ([a_owner] = [a_model]); so the look-up theorems describe its answers with st := the current structure.
+   [mop_eq_free] excludes the structural-edit operation [MStruct] (removeComponent, removeVariable, ... after
+   hand-over): look-ups after such an edit rely on the hash string separating the two structures, which is compared
+   on every run but not proved.  The assignment theorems (C13_assign_complete / _preserves / _fresh and the type and
+   item variants) are stated for EVERY structure and state, so they cover models edited structurally after hand-over,
+   including equivalences whose other end is outside the model (they stay with the variable that is inside). *)
+Theorem C13_lookups_current_for_all_histories_multi : forall c sts h idss stx,
   fx_refresh c = true -> fx_hash c = true -> eq_free_all idss -> Forall mop_eq_free h ->
-  let ms := fst (mrun c sts (minit idss) h) in
+  let ms := fst (mrun c sts (minit idss stx) h) in
   let k := a_model (m_ann ms) in
   a_has_model (m_ann ms) = true ->
-  let s := update c (nth_st sts k) {| s_ids := nth_ids (m_ids ms) k; s_ann := m_ann ms |} in
-  a_cache (s_ann s) = build_cache c (nth_st sts k) (nth_ids (m_ids ms) k) /\ a_owner (s_ann s) = k.
+  let s := update c (st_of sts (m_st ms) k) {| s_ids := nth_ids (m_ids ms) k; s_ann := m_ann ms |} in
+  a_cache (s_ann s) = build_cache c (st_of sts (m_st ms) k) (nth_ids (m_ids ms) k) /\ a_owner (s_ann s) = k.
 Proof. exact IdsMulti.lookups_current_multi. Qed.
 Print Assumptions C13_lookups_current_for_all_histories_multi.
 
 Example C13_nonvacuous_multi :
   let h := [MEdit 0 2 "x"; MEdit 1 2 "x"; MSetModel 0; MOp (OItem "x"); MSetModel 1; MOp (OItem "x")] in
-  let r := mrun cfg_fixed [st_one; st_one] (minit [ids5; ids5]) h in
+  let r := mrun cfg_fixed [st_one; st_one] (minit [ids5; ids5] [0; 1]) h in
   hash_string cfg_fixed st_one (nth_ids (m_ids (fst r)) 0) = hash_string cfg_fixed st_one (nth_ids (m_ids (fst r)) 1) /\
   a_owner (m_ann (fst r)) = 1 /\ a_model (m_ann (fst r)) = 1 /\
   nth 5 (snd r) RNone = REntry (Some (mk_entry "x" (vis KComp 2))).
